@@ -85,6 +85,19 @@ def gen_case(seed, tier="quick"):
                     op = dict(op, reuse=True, scale=rnd(seed, "reuse-scale", len(hist)).choice((1.5, -0.5, 2.0)),
                               xseed=op["xseed"] + 1)
             hist.append(op)
+    rt_ = rnd(seed, "train-path")
+    if rt_.random() < 0.3:
+        # training-path block: 2-3 persistent function sets, steps of 2-4 _forward_branch calls on the shared
+        # network (sets may repeat non-adjacently within one step), each followed by a forward without branch inputs
+        case["train_sets"] = [[_spec(rt_) for _ in range(rt_.choice((1, 2, 3)))] for _ in range(rt_.choice((2, 2, 3)))]
+        it = rt_.choice((0, 0, 3))
+        for _ in range(rt_.randint(1, 3)):
+            step_it = None if rt_.random() < 0.15 else it
+            for _ in range(rt_.randint(2, 4)):
+                hist.append({"op": "train", "set": rt_.randrange(len(case["train_sets"])), "it": step_it})
+                hist.append({"op": "forward", "N": rt_.choice((1, 2, 5)), "xseed": rt_.randrange(10 ** 6),
+                             "layout": rt_.choice(("shared", "shared", "per_function"))})
+            it += 1
     if not any(h["op"] == "fix" or h.get("with_branch") for h in hist[:1]):
         hist.insert(0, {"op": "fix", "how": "tensor3d", "specs": [_spec(r) for _ in range(2)]})
     case["history"] = hist
